@@ -240,7 +240,14 @@ def run_check(pid, tier):
           "workers": int(os.environ.get("VERIF_WORKERS", "14"))}
     spf = os.path.join(gen, "spec.json")
     json.dump(sp, open(spf, "w"), indent=1)
-    r = sh([gosym, spf], stdout=subprocess.PIPE, stderr=subprocess.PIPE, text=True, env=GOENV)
+    # cross-solver validation: every N-th decided query is re-decided by z3 5.1 (z3-new) and cvc5
+    xdir = os.path.join(VERIF, "out", "xsolver", pid)
+    shutil.rmtree(xdir, ignore_errors=True)
+    os.makedirs(xdir)
+    env = dict(GOENV)
+    env.setdefault("GOSYM_XCHECK", "400" if tier == "quick" else "150")
+    env.setdefault("GOSYM_TMP", xdir)
+    r = sh([gosym, spf], stdout=subprocess.PIPE, stderr=subprocess.PIPE, text=True, env=env)
     if r.returncode != 0:
         print(r.stderr[-3000:])
         print("UNDECIDED property=%s reason=engine failed to load or run (rc=%d)" % (pid, r.returncode))
@@ -358,8 +365,10 @@ def run_check(pid, tier):
 
 
 def summarize(out):
-    s = {"paths": 0, "queries": 0, "solver_s": 0.0, "asserts": {}, "instrs": 0, "obligations": 0}
+    s = {"paths": 0, "queries": 0, "solver_s": 0.0, "asserts": {}, "instrs": 0, "obligations": 0, "xchecked": 0, "xagree": 0, "xunknown": 0}
     for jo in out["jobs"]:
+        for k in ("xchecked", "xagree", "xunknown"):
+            s[k] += jo.get(k, 0)
         s["paths"] += jo["paths"]
         s["queries"] += jo["queries"]
         s["solver_s"] += jo["solver_s"]
@@ -399,7 +408,9 @@ def write_evidence(pid, tier, seed, t0, jobs, out, confirmed, known_hits, undeci
             "paths": s["paths"], "solver_queries": s["queries"], "solver_time_s": round(s["solver_s"], 2),
             "ssa_instructions_executed": s["instrs"], "overflow_obligations_discharged": s["obligations"],
             "assertion_evaluations": s["asserts"],
-            "solver": "z3 4.8.12 (z3 -in, incremental push/pop)",
+            "solver": "z3 4.8.12 (z3 -in, incremental push/pop; fresh process for contexts >= 600 lines)",
+            "cross_solver_validation": {"rule": "the 5th, the 50th and every N-th decided query (N = GOSYM_XCHECK, default 400 quick / 150 thorough, counted per harness instance) is written out as a stand-alone SMT-LIB2 script and re-decided by z3 5.1.0 (z3-new) and cvc5 1.0; sat-vs-unsat disagreement makes the run UNDECIDED and keeps the script under out/xsolver/",
+                                        "solver_runs": s["xchecked"], "agree": s["xagree"], "other_solver_unknown_or_timeout": s["xunknown"], "disagree": s["xchecked"] - s["xagree"] - s["xunknown"]},
             "exhaustive": all(jo["exhausted"] for jo in out["jobs"]),
             "outside_the_bound": spec.get("outside", ""),
             "undecided": undecided[:20],
